@@ -38,7 +38,7 @@ struct R : FSM::State { void planSucceeded(FullControl&) { t("R.planSucceeded");
 #endif
 struct A : FSM::StateT<I1, I2, I3> { CB("A")
 	void query(Ev&, ConstControl&) const { t("A.query"); } };
-struct B : FSM::State { void update(FullControl& c) { t("B.update"); c.changeTo<A>(); c.succeed(ffsm2::StateID{0}); c.fail(); } void entryGuard(GuardControl& c) { t("B.entryGuard"); (void) c; } };
+struct B : FSM::State { void preUpdate(FullControl& c) { t("B.preUpdate"); c.changeTo<A>(); } void update(FullControl& c) { t("B.update"); c.changeTo<A>(); c.succeed(ffsm2::StateID{0}); c.fail(); } void entryGuard(GuardControl& c) { t("B.entryGuard"); (void) c; } };
 struct Log : FSM::Instance::Logger {
 	void recordMethod(const ffsm2::EmptyContext&, const StateID o, const Method m) override { t("LOG:" + std::to_string(o == ffsm2::INVALID_STATE_ID ? -1 : o) + ":" + ffsm2::methodName(m)); }
 	void recordTransition(const ffsm2::EmptyContext&, const StateID o, const StateID d) override { t("LOGT:" + std::to_string(o == ffsm2::INVALID_STATE_ID ? -1 : o) + ">" + std::to_string(d)); }
@@ -99,12 +99,14 @@ int main() {
 			m.immediateChangeTo<B>();
 #ifndef PEER
 			tr.clear(); m.plan().change<B, A>(); m.update();
+			{ int n = 0; for (auto& x : tr) if (x == "LOGT:1>0") ++n; if (withLogger && n != 2) return fail("2 changeTo() calls of state 1 in one cycle produced " + std::to_string(n) + " transition records"); }
 			if (withLogger && (pos("LOGT:1>0") < 0 || pos("LOGS:1:1") < 0)) return fail("changeTo / fail from a callback not recorded");
 			if (withLogger && pos("LOGS:0:0") < 0) return fail("succeed(0) called by state 1 is not recorded as a success of state 0");
 			if (pos("R.planFailed") < 0) return fail("planFailed not delivered");
 			if (withLogger && pos("LOG:-1:planFailed") != pos("R.planFailed") - 1) return fail("planFailed delivery is not preceded by a planFailed method record");
 #else
 			tr.clear(); m.plan().change<B, A>(); m.update();
+			{ int n = 0; for (auto& x : tr) if (x == "LOGT:1>0") ++n; if (withLogger && n != 2) return fail("2 changeTo() calls of state 1 in one cycle produced " + std::to_string(n) + " transition records"); }
 #ifdef VERBOSE
 			if (withLogger && pos("LOG:-1:planFailed") < 0) return fail("verbose: the head-less apex did not record planFailed (trace has: see trace)");
 			if (withLogger && pos("LOG:-1:planSucceeded") >= 0) return fail("verbose: the head-less apex recorded planSucceeded for a planFailed delivery");
